@@ -328,8 +328,8 @@ def rule_walk_reaches_every_ephemeral(A, R, rule, walkers=None):
                     if k_[0] == "set_op" and x["fn"] == fn and x["op"] in ("insert", "contains") and x["target"][0] == "local" \
                             and x["elem"][0] == "key" and x["elem"][1] in psyms:
                         pblocks.add(x["bb"])
-                    elif k_[0] == "mark" and x["fn"] == fn and x["key"][0] in psyms:
-                        pblocks.add(x["bb"])
+                    elif k_[0] in ("mark", "marktest") and x["fn"] == fn and x["key"][0] in psyms:
+                        pblocks.add(x["bb"])      # the flag-table form: `if !seen[up] { seen[up] = true; push }`
                 for head in heads:
                     t = body.term(head)
                     if t["k"] != "call" or t["t"] < 0:
